@@ -20,7 +20,7 @@ RULE = ("A live state history (prefix program: the live state may be mid-episode
         "line. Distinct by SHA-1 of the case.")
 ASSUMPTIONS = [
     "the live path sees, for a command line, the text without line number, checksum, comment and surrounding blanks (OctoPrint's process_gcode_line), and for '@cmd params' the command and parameter string",
-    "elements of a multi-line result are compared after strip()",
+    "elements of a rewritten result are compared as commands (text after strip(), or equal code / sub-code / parameter words through the independent reader); untouched lines byte for byte",
 ]
 
 
@@ -190,7 +190,16 @@ def same(got, want, eol):
     w = want[:-len(eol)].split(eol)
     if any(("\n" in x or "\r" in x) for x in g):
         return False
-    return [x.strip() for x in g] == [x.strip() for x in w]
+    if len(g) != len(w):
+        return False
+    for a, b in zip(g, w):
+        if a.strip() == b.strip():
+            continue
+        # the same command in another spelling ("G10S1" / "G10 S1") is the same command
+        ra, rb = gread.read(a), gread.read(b)
+        if ra is None or rb is None or (ra.code, ra.sub, ra.words, ra.text) != (rb.code, rb.sub, rb.words, rb.text):
+            return False
+    return True
 
 
 def selftest():
